@@ -648,7 +648,7 @@ struct Blob {
 
 /// replays one history; returns the per-step observations (every expectation of the specification is
 /// the positive one: ok / accept / equal)
-fn replay_history<C: GenericConfig<D, F = F> + 'static>(c: &Circ<C>, s: &Sers, ops: &[Op], wit0: &[Result<Vec<Option<u64>>, String>], flip: bool) -> Vec<Value> {
+fn replay_history<C: GenericConfig<D, F = F> + 'static>(c: &Circ<C>, s: &Sers, ops: &[Op], wit0: &[Result<Vec<Option<u64>>, String>], flip: bool, swap: bool) -> Vec<Value> {
     let mut reps: Vec<Rep<C>> = vec![Rep::Orig(&c.data)];
     let mut blobs: Vec<Blob> = vec![];
     let mut proofs: Vec<Pf<C>> = vec![];
@@ -693,6 +693,20 @@ fn replay_history<C: GenericConfig<D, F = F> + 'static>(c: &Circ<C>, s: &Sers, o
                 };
                 match r {
                     Ok(rp) => {
+                        let mut rp = rp;
+                        if swap {
+                            // seeded-defect canary: the restore exchanges first_lut_gate / last_lut_gate
+                            let po = match &mut rp {
+                                Rep::Full(d) => Some(&mut d.prover_only),
+                                Rep::Prover(d) => Some(&mut d.prover_only),
+                                _ => None,
+                            };
+                            if let Some(po) = po {
+                                for lw in po.lookup_rows.iter_mut() {
+                                    std::mem::swap(&mut lw.first_lut_gate, &mut lw.last_lut_gate);
+                                }
+                            }
+                        }
                         // decoded = original: byte-identical re-encoding and, where derived, equality with the original
                         let re = match &rp {
                             Rep::Full(d) => flat(gd(|| d.to_bytes(s.gs, s.ws))),
@@ -918,7 +932,7 @@ fn run_circuit<C: GenericConfig<D, F = F> + 'static>(c: &Circ<C>, s: &Sers, line
                         continue;
                     }
                 };
-                let steps = replay_history(c, s, &ops, &wit0, flip_hist);
+                let steps = replay_history(c, s, &ops, &wit0, flip_hist, rep.swap_lookup_rows);
                 hres.push(json!({"hid": h["hid"], "steps": steps}));
             }
         }
